@@ -18,7 +18,7 @@ var modelEffects = map[string][]string{
 	"github.com/google/gopacket.SerializeLayers": {"E:uint8", "ghostarr.serlen"},
 	"time.Now":   {"ghostbv.clock"},
 	"time.Since": {"ghostbv.clock"},
-	"encoding/json.Unmarshal": {"*"},
+
 	"google.golang.org/protobuf/types/known/anypb.New": {"ghost.marshalfail"},
 	"(encoding/binary.bigEndian).PutUint16":    {"E:uint8"},
 	"(encoding/binary.bigEndian).PutUint32":    {"E:uint8"},
@@ -251,8 +251,28 @@ func mHavocPointee(idx int) modelFn {
 			panic(unsupported("model needs a statically known pointer argument"))
 		}
 		t := ptrRootAt(ptr.P)
+		// ghost log "unmarshal": snapshots of the target before and after the call
+		pre := x.alloc(st)
+		x.store(st, &Ptr{Kind: PHeap, Ref: pre, Root: t}, x.load(st, ptr.P))
 		nv := x.freshVal(t, "unmarshalled")
 		x.store(st, ptr.P, nv)
+		post := x.alloc(st)
+		x.store(st, &Ptr{Kind: PHeap, Ref: post, Root: t}, nv)
+		x.appendLog(st, "unmarshal")
+		nk, ek := x.logKeys("unmarshal")
+		n := x.use(x.heapSym(st, nk, x.keyInfo[nk]))
+		e := x.use(x.heapSym(st, ek, x.keyInfo[ek]))
+		id := sel(e, "(- "+n+" 1)")
+		x.sc.bridge[64] = true
+		for _, fv := range [][2]string{{"gf_unmarshal_pre", pre}, {"gf_unmarshal_post", post}} {
+			if !x.sc.decl[fv[0]] {
+				x.sc.decl[fv[0]] = true
+				x.sc.ufDecls = append(x.sc.ufDecls, fmt.Sprintf("(declare-fun %s (Int) %s)", fv[0], bvSort(64)))
+			}
+			b := "(bvof64 " + fv[1] + ")"
+			x.sc.assume(eq("("+fv[0]+" "+id+")", b))
+			x.sc.assume(eq("(nat64 "+b+")", fv[1]))
+		}
 		return x.freshResults(st, s, "unmarshal")
 	}
 }
